@@ -71,6 +71,18 @@ Proof.
 Qed.
 Print Assumptions C23_key_print_names_instance.
 
+(* The header of a class may permute the definition order of its parameters in ANY way (c_params is an
+   arbitrary list of positions): make_key and key_print work in definition order, `to_header_order c` is the
+   permutation to the header order, and composing it with key_print gives the instance's header parameters. *)
+Theorem C23_key_print_any_header_permutation : forall P ci c, wf_program P = true -> nth_class P ci = Some c ->
+  params_are_ranges c -> range_product (p_globals P) c <= two64 ->
+  forall e, In e (instances_of (p_globals P) c) ->
+    to_header_order c (key_print (p_globals P) c (make_key (p_globals P) c e)) = params_of c e.
+Proof.
+  intros P ci c Hwf Hc Hpr Hov. apply key_print_header_view; [eapply wf_class_limits; eassumption|assumption|assumption].
+Qed.
+Print Assumptions C23_key_print_any_header_permutation.
+
 (* ---- the full statement ("the printed form names the instance's parameter values, including
    parameters defined by expressions") is FALSE of the faithful model in two ways; both witnesses
    are replayed on the real generated code by checks/C23.py (notes/findings/C23-*.md):
@@ -123,4 +135,20 @@ Example C23_example :
   /\ map (make_key [] ex_keys) (instances_of [] ex_keys) = [0; 2; 9; 4; 11; 18; 6; 13; 20; 27]
   /\ map (fun e => key_print [] ex_keys (make_key [] ex_keys e)) (instances_of [] ex_keys)
      = map (params_of ex_keys) (instances_of [] ex_keys).
+Proof. vm_compute. repeat split. Qed.
+
+(* all six header orders of three range parameters with different sizes and lower bounds
+   (a = -3..4, b = 2..4, c = 0..1 defined in this order): the key ignores the header, the
+   header view of the printed key is the instance *)
+Definition ex_perm (ps : list nat) : tclass :=
+  mk_class [Lrange (Ec (-3)) (Ec 4) (Ec 1); Lrange (Ec 2) (Ec 4) (Ec 1); Lrange (Ec 0) (Ec 1) (Ec 1)] ps.
+Example C23_all_header_permutations :
+  forallb (fun ps =>
+     forallb (fun e => andb (make_key [] (ex_perm ps) e =? make_key [] (ex_perm [0;1;2]%nat) e)
+                            (zlist_eqb (to_header_order (ex_perm ps) (key_print [] (ex_perm ps) (make_key [] (ex_perm ps) e)))
+                                       (params_of (ex_perm ps) e)))
+             (instances_of [] (ex_perm ps)))
+    [[0;1;2]; [0;2;1]; [1;0;2]; [1;2;0]; [2;0;1]; [2;1;0]]%nat = true
+  /\ params_of (ex_perm [2;0;1]%nat) [4; 2; 1] = [1; 4; 2]
+  /\ key_print [] (ex_perm [2;0;1]%nat) (make_key [] (ex_perm [2;0;1]%nat) [4; 2; 1]) = [4; 2; 1].
 Proof. vm_compute. repeat split. Qed.
